@@ -29,6 +29,7 @@ SIMPLE_TEXTS = ["plain", "two words", "x", "note one"]
 DEFAULTS = [None, 0, 1, 2.5, True, False, "", "str", "NULL", ["expr", "now()"], "it's", "123", "-1", "1e3", "true",
             -7, 10 ** 12, "  ", "x" * 300]
 ACTIONS = [None, "cascade", "set null", "no action", "restrict"]
+ACTIONS_EDIT = ACTIONS + ["SET NULL", "Cascade", "no  action", ""]
 REFTYPES = [">", "<", "-", "<>"]
 IDXTYPES = [None, "btree", "hash"]
 COLORS = [None, "#fff", "#3498db"]
@@ -861,7 +862,8 @@ def draw_op(rng: random.Random, eng: C10Engine) -> List[Any]:
         x = rng.choice(d["refs"])
         f = rng.choice(["type", "inline", "name", "on_update", "on_delete", "comment"])
         v = {"type": rng.choice(REFTYPES), "inline": not m[x]["inline"], "name": rng.choice([None, "fk1", "fk_new"]),
-             "on_update": rng.choice(ACTIONS), "on_delete": rng.choice(ACTIONS), "comment": rng.choice([None, "rc2"])}[f]
+             "on_update": rng.choice(ACTIONS_EDIT), "on_delete": rng.choice(ACTIONS_EDIT),
+             "comment": rng.choice([None, "rc2"])}[f]
         return ["set", x, f, v]
     if r < 0.70 and d["enums"]:
         e = rng.choice(d["enums"])
